@@ -92,4 +92,85 @@ def meetsB (ps : Containers) (b : Option (String × Json)) (e : Expect) : Bool :
     | some cont => (match lookupC e.name cont with | some x => atB e.path x e.value | none => false)
     | none => false
 
+/-! ### vocabulary of the allOf theorems, full statements and witness documents -/
+
+/-- `v` is an example of the (merged) subschema in the OpenAPI 3 reading: its `example`, or an item of `examples` -/
+def InExamples (acc : List (String × Json)) (v : Json) : Prop :=
+  ∃ vs, Json.lookup "examples" acc = some (.arr vs) ∧ v ∈ vs
+
+/-- a later allOf item contributes `v` as its `example` or as an item of its `examples` list -/
+def Contributes (kvs : List (String × Json)) (v : Json) : Prop :=
+  ("example", v) ∈ kvs ∨ ∃ ws, ("examples", Json.arr ws) ∈ kvs ∧ v ∈ ws
+
+/-- the full statement: examples of a container survive for the names the user did not set -/
+def UserConfigKeepsExamples (variant : Variant) : Prop :=
+  ∀ (combo user : Containers) (b : Option (String × Json)) (c n : String) (v : Json),
+    Carries combo b (.param c n v) → (∀ kc ∈ user, kc.1 = c → ∀ nv ∈ kc.2, nv.1 ≠ n) →
+    Carries (mergeKwargs variant combo user) b (.param c n v)
+
+/-- the full statement: if building the examples fails, the operation ends as an error -/
+def DroppedIsReported (vExc vHdr : Variant) : Prop :=
+  ∀ e : Exc, runStatus (addExamples vExc vHdr (.error e)) = .error
+
+/-- the full statement: an example that *can* be sent survives the removal of unsendable headers -/
+def SendableExamplesSurvive (vHdr : Variant) : Prop :=
+  ∀ (cases : List ECase) (c : ECase) (e : Example), c ∈ cases → Carries c.params c.body e →
+    (∀ n v, e = .param "headers" n v → n ∉ c.invalidHeaders) →
+    ∃ c' ∈ (addLoop vHdr cases).1, Carries c'.params c'.body e
+
+/-- parameter `q` with schema `anyOf: [ { oneOf: [ {type: string, example: "DEEP"} ] } ]` -/
+def deepParam : Source :=
+  { isBody := false, container := "query", name := "q",
+    definition := .obj [("name", .str "q"), ("in", .str "query"),
+      ("schema", .obj [("anyOf", .arr [.obj [("oneOf", .arr [.obj [("type", .str "string"), ("example", .str "DEEP")]])]])])],
+    exampleFields := ["example"], examplesField := "examples", unresolved := .null, respValues := [],
+    jsonSchema := .obj [], schemaFields := [("example", "examples")] }
+
+/-- the full statement: an example on a sub-schema reachable through *any* nesting of anyOf / oneOf is extracted -/
+def ExtractsAtAnyDepth : Prop :=
+  ∀ (s : Source) (sch branch : Json) (f : String) (v : Json), s.definition.get? "schema" = some sch →
+    Branch sch branch → f ∈ s.exampleFields → branch.get? f = some v → s.mk' v ∈ extractTopLevel [s]
+
+/-- body schema `anyOf: [ {type: object, properties: {b: {type: string, example: "AP"}}} ]` -/
+def deepBodySchema : Json :=
+  .obj [("anyOf", .arr [.obj [("type", .str "object"),
+    ("properties", .obj [("b", .obj [("type", .str "string"), ("example", .str "AP")])])]])]
+
+/-- the full statement: property examples of a sub-schema reachable through body-level combinators are extracted -/
+def ExtractsUnderBodyCombinator : Prop :=
+  ∀ (gen : Json → Json) (ef esf : String) (schema branch : Json) (path : List Seg) (v : Json),
+    Branch schema branch → Declared ef esf branch path v →
+    ∃ fuel, ∃ obj ∈ extractFromSchemaF gen ef esf fuel schema, At obj path v
+
+/-- Swagger 2.0 body parameter whose schema is `allOf: [ {type: object}, {example: {s: "LATE"}} ]` -/
+def swaggerAllOfBody : Source :=
+  { isBody := true, container := "", name := "application/json",
+    definition := .obj [("name", .str "b"), ("in", .str "body"),
+      ("schema", .obj [("allOf", .arr [.obj [("type", .str "object")],
+                                       .obj [("example", .obj [("s", .str "LATE")])]])])],
+    exampleFields := ["x-example", "example"], examplesField := "x-examples", unresolved := .null, respValues := [],
+    jsonSchema := .obj [], schemaFields := [("example", "examples"), ("x-example", "x-examples")] }
+
+/-- the full statement of `C17_extract_allOf_items` without the OpenAPI 3 field-name hypothesis -/
+def AllOfItemsExtracted : Prop :=
+  ∀ (s : Source) (kvs first : List (String × Json)) (rest : List Json) (v : Json),
+    s.definition.get? "schema" = some (.obj kvs) → Json.lookup "allOf" kvs = some (.arr (.obj first :: rest)) →
+    "example" ∈ s.exampleFields → (∃ b, Json.obj b ∈ rest ∧ Contributes b v) → s.mk' v ∈ extractTopLevel [s]
+
+def exParam : Source :=
+  { isBody := false, container := "query", name := "q",
+    definition := .obj [("name", .str "q"), ("in", .str "query"), ("example", .str "E0"),
+      ("examples", .obj [("a", .obj [("value", .str "E1")])]),
+      ("schema", .obj [("example", .str "E2"), ("examples", .arr [.str "E3"]),
+        ("oneOf", .arr [.obj [("example", .str "E4")]]),
+        ("allOf", .arr [.obj [("type", .str "string"), ("example", .str "E5")], .obj [("example", .str "E6")]])])],
+    exampleFields := ["example"], examplesField := "examples", unresolved := .obj [("a", .obj [("value", .str "E1")])],
+    respValues := [], jsonSchema := .obj [], schemaFields := [("example", "examples")] }
+
+/-- a body schema with an example two property levels down, reached through an `items` step -/
+def nestedSchema : Json :=
+  .obj [("type", .str "array"), ("items", .obj [("type", .str "object"), ("properties",
+    .obj [("a", .obj [("type", .str "object"), ("properties",
+      .obj [("b", .obj [("oneOf", .arr [.obj [("type", .str "string"), ("example", .str "NB")]])])])])])])]
+
 end SV.Spec.C17
